@@ -159,6 +159,24 @@ def handleGlue (id : Nat) (hdr body : List Sexp) : String :=
     | _, _, _ => verdict id (some "unparsable glue header") "ok" "ok"
   | _, _ => verdict id (some "unparsable glue case") "ok" "ok"
 
+/-- a chain whose exceptions reject attribute assignment (`glue-reject`; every level awaits by yield) -/
+def handleGlueReject (id : Nat) (hdr body : List Sexp) : String :=
+  match hdr, body.mapM event? with
+  | [b, r, ls], some impl =>
+    match bottom? b, rule? r, levels? ls with
+    | some bottom, some rule, some levels =>
+      if !rejectDomain bottom levels then verdict id (some "glue-reject case outside rejectDomain") "ok" "ok"
+      else
+        let model := runTopC .rejects rule bottom levels
+        let corr := firstDiffE model impl
+        -- SPECM: the model violates the reference exactly where the recorded finding says; "ok" here means "the
+        -- model's observation is the reference one or carries the recorded name"
+        let cm := rejectClause bottom levels model
+        let specm := if cm == "exception-rejecting-attributes-not-delivered" then "ok" else cm
+        verdict id corr (rejectClause bottom levels impl) specm
+    | _, _, _ => verdict id (some "unparsable glue-reject header") "ok" "ok"
+  | _, _ => verdict id (some "unparsable glue-reject case") "ok" "ok"
+
 def retrieval? : Sexp → Option Retrieval
   | .list [.atom "direct"] => some .direct
   | .list [.atom "via", a] => (await? a).map .viaTask
@@ -221,6 +239,16 @@ def holder? : Sexp → Option Holder
   | .atom "genValue" => some .genValue
   | _ => none
 
+def badHolder? : Sexp → Option BadHolder
+  | .atom "future" => some .future
+  | .atom "errorFuture" => some .errorFuture
+  | .atom "task" => some .task
+  | .atom "scopedValue" => some .scopedValue
+  | .atom "scopedOverride" => some .scopedOverride
+  | .atom "propOverride" => some .propOverride
+  | .atom "genValue" => some .genValue
+  | _ => none
+
 def obj? (gen : List Nat × List Nat) (ci : Bool) : Sexp → Option Obj
   | .list [.atom "fut", r, o] => do some (.fut { inRepr := (← r.bool?), out := (← outc? o) })
   | .list [.atom "task", o, dopen, d, al, it] => do
@@ -231,6 +259,7 @@ def obj? (gen : List Nat × List Nat) (ci : Bool) : Sexp → Option Obj
   | .list [.atom "holder", k, p] => do some (.holder (← holder? k) (← payShape? p))
   | .list [.atom "gen"] => some (.asyncGen gen.1 gen.2)
   | .list [.atom "constinit"] => some (.constInit ci)
+  | .list [.atom "badheld", k, d] => do some (.badHeld (← badHolder? k) (← d.bool?))
   | .list [.atom "fe", n, x, ta, tg] => do
     some (.fmtErr { isNone := (← n.bool?), isExc := (← x.bool?), tbAttr := (← tbAttr? ta), tbArg := (← tg.bool?) })
   | _ => none
@@ -339,6 +368,7 @@ def handle (id : Nat) (hdr : List Sexp) (body : List Sexp) : String :=
   match hdr with
   | .atom "filter" :: rest => handleFilter id rest body
   | .atom "glue" :: rest => handleGlue id rest body
+  | .atom "glue-reject" :: rest => handleGlueReject id rest body
   | .atom "again" :: rest => handleAgain id rest body
   | .atom "repr" :: rest => handleRepr id rest body
   | _ => verdict id (some "unknown kind of debug case") "ok" "ok"
